@@ -138,6 +138,14 @@ func cmdFunc(args []string) {
 			}
 		}
 		if !matched {
+			if lf, ok := pr.LitFuncs[k]; ok {
+				r := VerifyFunc(pr, eff, lf, VerifyOpts{NoSafety: *nosafe, View: *view})
+				reps = append(reps, r)
+				all = append(all, r.Obls...)
+				matched = true
+			}
+		}
+		if !matched {
 			fmt.Println("unknown function", k)
 		}
 	}
